@@ -34,6 +34,10 @@ type Op struct {
 	T int    `json:"t,omitempty"` // log: transaction index (selects the tx hash); number of topics = T%5
 	F bool   `json:"f,omitempty"` // commit: deleteEmpty of the next epoch; copy: continue on the copy
 	M int    `json:"m,omitempty"` // commit: 0 same object, 1 Reset(root), 2 New(root, same db), 3 New(root, fresh db over the disk); copy: 0 Copy, 1 ManageState
+	// reopen: N = index (mod count) into the list of roots committed so far in
+	// this case (0 = the pre-state), M: 0 check only, 1 check and continue on the
+	// reopened older state (F = deleteEmpty of its epoch), 2 check and also Reset a
+	// scratch StateDB to it
 }
 
 type PreAcct struct {
@@ -148,6 +152,23 @@ type frozenPair struct {
 	what string
 }
 
+// committedRoot is one root a Commit returned in this case, with the model
+// content of that commit and the state.Database it was committed through.
+type committedRoot struct {
+	root    common.Hash
+	m       *Model // finalised content of that commit, no logs; never modified
+	db      state.Database
+	onDisk  bool // TrieDB().Commit(root) was called: a fresh database over the disk can open it
+	sdb     *state.StateDB
+	trieGen int
+	// what happened on the committing StateDB (same account trie) afterwards
+	foldsAfter    int  // finalisations that folded pending writes into its account trie
+	movedOn       bool // ... and left that trie with a content different from this commit's
+	commitsAfter  int  // further Commits of that trie
+	dbCommitsSeen int  // Commits through db (by any StateDB) after this one
+	opsAfter      int
+}
+
 type snapInfo struct {
 	kinds            map[string]bool
 	suicideRecreated bool
@@ -171,6 +192,11 @@ type world struct {
 	flag   bool
 	frozen []frozenPair
 	trace  []Op
+
+	// every root committed in this case (the pre-state first); trieGen changes
+	// whenever w.s starts working on another account trie object
+	history []*committedRoot
+	trieGen int
 
 	preimagesLossy bool // the case continued on a Copy (SecureTrie.Copy drops unflushed preimages)
 
@@ -275,10 +301,14 @@ func newWorld(f failer, name string, cs *Case) *world {
 	if want := w.m.Root(); !bytes.Equal(root[:], want) {
 		w.fail("pre-state root %x differs from the specification's root %x for the content", root, want)
 	}
+	pre := &committedRoot{root: root, m: w.m.Clone(), db: w.db, sdb: s, trieGen: -1}
+	pre.m.Logs = nil
+	w.history = append(w.history, pre)
 	if cs.FreshDB {
 		if err := w.db.TrieDB().Commit(root, false); err != nil {
 			w.fail("TrieDB.Commit: %v", err)
 		}
+		pre.onDisk = true
 		w.db = state.NewDatabase(w.disk)
 	}
 	w.s, err = state.New(root, w.db)
@@ -552,6 +582,9 @@ func (w *world) exec(o Op) bool {
 		return false
 	}
 	w.trace = append(w.trace, o)
+	for _, e := range w.history {
+		e.opsAfter++
+	}
 	if !w.cs.Sparse || o.K == "revert" || o.K == "observe" || o.K == "finalise" || o.K == "root" {
 		w.compare(w.s, w.m, fmt.Sprintf("after op %d (%s)", len(w.trace)-1, o.K))
 	}
@@ -785,6 +818,7 @@ func (w *world) apply(o Op) bool {
 	case "finalise":
 		w.s.Finalise(w.flag)
 		w.finaliseModel(w.m, w.flag)
+		w.noteFold(false)
 		w.afterFinalise()
 	case "root":
 		got := w.s.IntermediateRoot(w.flag)
@@ -792,9 +826,12 @@ func (w *world) apply(o Op) bool {
 		if want := w.m.Root(); !bytes.Equal(got[:], want) {
 			w.fail("IntermediateRoot(%v) = %x, specification root of the content %x", w.flag, got, want)
 		}
+		w.noteFold(false)
 		w.afterFinalise()
 		w.label(w.mid() + "root-checked")
 	case "observe":
+	case "reopen":
+		return w.reopen(o)
 	case "commit":
 		return w.commit(o)
 	case "copy":
@@ -873,6 +910,7 @@ func (w *world) commit(o Op) bool {
 		w.fail("Commit(%v) = %x, specification root of the content %x", w.flag, root, want)
 	}
 	w.sh.Commit()
+	w.noteFold(true)
 	w.ids, w.sinfo = nil, nil
 	w.finalisations++
 	w.mutsSinceFin = 0
@@ -880,6 +918,8 @@ func (w *world) commit(o Op) bool {
 	// reopen legs: a state opened at the committed root reads back identically
 	clean := w.m.Clone()
 	clean.Logs = nil
+	entry := &committedRoot{root: root, m: clean.Clone(), db: w.db, sdb: w.s, trieGen: w.trieGen}
+	w.history = append(w.history, entry)
 	re, err := state.New(root, w.db)
 	if err != nil {
 		w.fail("state.New(committed root, same db): %v", err)
@@ -893,6 +933,7 @@ func (w *world) commit(o Op) bool {
 		if err := w.db.TrieDB().Commit(root, false); err != nil {
 			w.fail("TrieDB.Commit: %v", err)
 		}
+		entry.onDisk = true
 		freshDB = state.NewDatabase(w.disk)
 		fresh, err = state.New(root, freshDB)
 		if err != nil {
@@ -911,11 +952,14 @@ func (w *world) commit(o Op) bool {
 			w.fail("Reset: %v", err)
 		}
 		w.m, w.sh = clean, newShadow()
+		w.trieGen++
 		w.label("continue-after-reset")
 	case 2:
 		w.s, w.m, w.sh = re, clean, newShadow()
+		w.trieGen++
 	default:
 		w.s, w.db, w.m, w.sh = fresh, freshDB, clean, newShadow()
+		w.trieGen++
 	}
 	w.flag = o.F
 	w.checkFrozen("at commit")
@@ -948,11 +992,131 @@ func (w *world) copy(o Op) bool {
 		w.frozen = append(w.frozen, frozenPair{w.s, w.m.Clone(), w.flag, "original after " + what})
 		w.s, w.m, w.sh = c, mc, w.sh.CopyOf()
 		w.ids, w.sinfo = nil, nil
+		w.trieGen++
 		w.preimagesLossy = true
 		w.label("continue-on-copy")
 	} else {
 		w.frozen = append(w.frozen, frozenPair{c, mc, w.flag, what})
 	}
+	return true
+}
+
+// noteFold is called after a Finalise/IntermediateRoot/Commit of the live
+// StateDB has been mirrored in the model: it records, for the roots this same
+// StateDB (same account trie object) committed earlier, that its trie has been
+// written to again - bookkeeping for the labels of the reopen legs only.
+func (w *world) noteFold(isCommit bool) {
+	for _, e := range w.history {
+		if isCommit && e.db == w.db {
+			e.dbCommitsSeen++
+		}
+		if e.sdb != w.s || e.trieGen != w.trieGen {
+			continue
+		}
+		if w.mutsSinceFin > 0 {
+			e.foldsAfter++
+		}
+		if !SameContent(&e.m.content, &w.m.content) {
+			e.movedOn = true
+		}
+		if isCommit {
+			e.commitsAfter++
+		}
+	}
+}
+
+// reopenCheck opens a root committed earlier in this case through the
+// state.Database it was committed through (and, if it was flushed, through a
+// new database over the disk) and requires the content of THAT commit: every
+// getter, the dump and the root - whatever the committing StateDB, its copies
+// and the database's cache of recent tries have been used for since.
+func (w *world) reopenCheck(e *committedRoot, idx int, when string) *state.StateDB {
+	where := fmt.Sprintf("root of commit #%d reopened %s on its database", idx, when)
+	re, err := state.New(e.root, e.db)
+	if err != nil {
+		w.fail("%s: state.New(%x): %v", where, e.root, err)
+	}
+	w.compare(re, e.m, where)
+	w.compareDump(re, e.m, where)
+	if got := re.IntermediateRoot(false); got != e.root {
+		w.fail("%s: IntermediateRoot of the untouched reopened state = %x, committed root %x", where, got, e.root)
+	}
+	if e.onDisk {
+		where = fmt.Sprintf("root of commit #%d reopened %s from disk", idx, when)
+		fr, err := state.New(e.root, state.NewDatabase(w.disk))
+		if err != nil {
+			w.fail("%s: state.New(%x): %v", where, e.root, err)
+		}
+		w.compare(fr, e.m, where)
+		w.compareDump(fr, e.m, where)
+		if e.opsAfter > 0 {
+			w.label("reopen:older-root-from-disk")
+		}
+	}
+	if e.opsAfter > 0 {
+		w.label(w.mid() + "reopen:older-root")
+	}
+	if e.foldsAfter > 0 && e.movedOn {
+		// the class: the committing StateDB kept writing into the very trie
+		// object it had committed (and handed to the database's cache)
+		w.label("reopen:after-continued-use")
+		w.label(w.mid() + "reopen:after-continued-use")
+		if e.commitsAfter > 0 {
+			w.label("reopen:after-continued-use+recommit")
+		}
+	}
+	if e.dbCommitsSeen > 0 {
+		w.label("reopen:not-the-latest-commit")
+	}
+	if e.dbCommitsSeen >= 12 {
+		w.label("reopen:beyond-past-trie-cache")
+	}
+	return re
+}
+
+// reopen: the operation "open an older committed root" (N selects it). M=1
+// continues the case on the reopened state (the way a reorg builds on an older
+// block's state); M=2 additionally brings a scratch StateDB to it with Reset.
+func (w *world) reopen(o Op) bool {
+	n := len(w.history)
+	if n == 0 {
+		return false
+	}
+	idx := int(o.N % uint64(n))
+	e := w.history[idx]
+	re := w.reopenCheck(e, idx, fmt.Sprintf("after op %d", len(w.trace)-1))
+	switch o.M {
+	case 1:
+		// the live state (pending writes, logs; its snapshots are not used again)
+		// is set aside: it must not move while the other state, opened on the
+		// same database, is written to and committed
+		if len(w.frozen) < 3 {
+			w.frozen = append(w.frozen, frozenPair{w.s, w.m.Clone(), w.flag, "live state set aside at reopen"})
+			w.label("reopen:live-state-set-aside")
+		}
+		w.s, w.db, w.m, w.sh = re, e.db, e.m.Clone(), newShadow()
+		w.ids, w.sinfo = nil, nil
+		w.mutsSinceFin = 0
+		w.trieGen++
+		w.flag = o.F
+		w.label("reopen:continue-on-older-root")
+	case 2:
+		sc, err := state.New(common.Hash{}, e.db)
+		if err == nil {
+			// dirty the scratch state first so that Reset has something to drop
+			sc.SetNonce(common.Address(w.addrs[0]), 77)
+			sc.AddRefund(5)
+			sc.IntermediateRoot(false)
+			sc.SetState(common.Address(w.addrs[0]), common.Hash(slotPool[1]), common.Hash{31: 9})
+			err = sc.Reset(e.root)
+		}
+		if err != nil {
+			w.fail("scratch state Reset to the root of commit #%d: %v", idx, err)
+		}
+		w.compare(sc, e.m, fmt.Sprintf("scratch state Reset to the root of commit #%d", idx))
+		w.label("reopen:reset-to-older-root")
+	}
+	w.checkFrozen("at reopen")
 	return true
 }
 
@@ -971,6 +1135,10 @@ func (w *world) finish() {
 	w.checkFrozen("at the end")
 	if !w.exec(Op{K: "root"}) || !w.exec(Op{K: "commit", M: 3, F: w.flag}) {
 		w.fail("harness error: final root/commit not executed")
+	}
+	// every root committed during the case still reads back as it was committed
+	for i, e := range w.history {
+		w.reopenCheck(e, i, "at the end")
 	}
 	for _, fp := range w.frozen {
 		got := fp.s.IntermediateRoot(fp.flag)
